@@ -55,6 +55,18 @@ type History struct {
 	Submissions []*Submission
 	Events      []string
 	Roots       []RootAnswer
+	Heads       []*HeadDelivery
+}
+
+// HeadDelivery records one head event handed to a handler of the vouch process.
+type HeadDelivery struct {
+	Inc           int
+	Node          string
+	Step, EndStep int // EndStep: the handler has returned
+	T, EndT       time.Duration
+	Slot          uint64
+	Cur, Prev     phase0.Root
+	Odd           bool // no data or a slot far in the future
 }
 
 // RootAnswer records what a node answered to a head block root request.
@@ -364,11 +376,23 @@ func (n *Node) Emit(topic string, data any, liveInc int) {
 				// spawns) the incarnation it belongs to; delivery on one stream stays sequential.
 				done := make(chan struct{})
 				h := r.handler
+				var hd *HeadDelivery
+				if topic == "head" {
+					hd = &HeadDelivery{Inc: r.inc, Node: n.NodeName, Step: simrt.Step(), T: simrt.Now(), Odd: true}
+					if he, ok := data.(*apiv1.HeadEvent); ok && he != nil {
+						hd.Slot, hd.Cur, hd.Prev = uint64(he.Slot), he.CurrentDutyDependentRoot, he.PreviousDutyDependentRoot
+						hd.Odd = uint64(he.Slot) > 1<<39
+					}
+					simrt.Crit(func() { n.H.Heads = append(n.H.Heads, hd) })
+				}
 				simrt.GoInc("event-"+topic, r.inc, func() {
 					defer close(done)
 					h(&apiv1.Event{Topic: topic, Data: data})
 				})
 				<-done
+				if hd != nil {
+					simrt.Crit(func() { hd.EndStep, hd.EndT = simrt.Step(), simrt.Now() })
+				}
 				simrt.Yield("node/emit")
 			}
 		}
